@@ -20,7 +20,7 @@ vars == <<c, ph, x>>
 Init == c = 0 /\ ph = 0 /\ x = {}
 Next == \/ ph = 0 /\ ph' = 1 /\ c' \in 1..16 /\ x' = x
         \/ ph = 1 /\ ph' = 2 /\ c' \in {i \in 1..NR : i % 16 = c % 16} /\ x' = x
-        \/ ph = 2 /\ ph' = 3 /\ c' = c /\ Recs[c].op \in {"extrema", "bounds"} /\ x' \in SUBSET ToSet(Recs[c].K)
+        \/ ph = 2 /\ ph' = 3 /\ c' = c /\ Recs[c].op \in {"extrema", "bounds", "extrema2"} /\ x' \in SUBSET ToSet(Recs[c].K)
 Spec == Init /\ [][Next]_vars
 R == Recs[c]
 Clause(name, cond) == cond \/ (PrintT(<<"QVVIOL", name, c, R.id>>) /\ FALSE)
@@ -76,7 +76,13 @@ TruthT(t, a) == IF t[1] = "L" THEN (IF t[2] \in a THEN 1 ELSE 0)
 SatTruth == Clause("SatTruth", ~Is("sat") \/ Rp = FromTruth(ToSet(R.K), LAMBDA a : TruthT(R.tree, a)))
 
 \* ---------------- C15 ----------------
-EncloseAt == Clause("EncloseAt", ~(Point /\ Good) \/ (R.lo <= Eval(R.spin, M, x) /\ Eval(R.spin, M, x) <= R.hi))
+EncloseAt == Clause("EncloseAt", ~(Point /\ Good /\ R.op # "extrema2") \/ (R.lo <= Eval(R.spin, M, x) /\ Eval(R.spin, M, x) <= R.hi))
+\* coefficients c * 2^53 + d, handed over as two polynomials (of the c's and of the d's); numbers compare as pairs <<c, d>>
+\* (the d-parts stay far below 2^52)
+LexLE(a, b) == a[1] < b[1] \/ (a[1] = b[1] /\ a[2] <= b[2])
+EncloseAt2 == Clause("EncloseAt2", ~(Point /\ Good /\ R.op = "extrema2") \/
+    LET e == <<Eval(R.spin, FromRaw(R.spin, R.model_c), x), Eval(R.spin, M, x)>>
+    IN LexLE(<<R.lo2[1], R.lo2[2]>>, e) /\ LexLE(e, <<R.hi2[1], R.hi2[2]>>))
 \* "constant model": no term with a variable is stored (a raw dict whose terms merely cancel is not demanded to be exact)
 ConstantExact == Clause("ConstantExact", ~Is("extrema") \/ (\E i \in 1..Len(R.model) : Len(R.model[i][1]) > 0) \/ (R.lo = Offset(M) /\ R.hi = Offset(M)))
 TempRange == Clause("TempRange", ~Is("temprange") \/ (R.t0_ge_tf /\ R.tf_ge_0 /\ (R.novars => R.zero_zero)))
